@@ -374,7 +374,9 @@ class Interp:
                 fp = PatternFile(f['size'])
                 self._keep.append(fp)
             else:
-                fp = io.BytesIO(f.get('raw') or f['data'])
+                from vf.engine import ShortReads
+                # (one source in four returns at most 700 bytes per read, as a raw stream may)
+                fp = (ShortReads if f['idx'] % 4 == 1 else io.BytesIO)(f.get('raw') or f['data'])
                 self._keep.append(fp)
             kw = {}
             if r['rr']:
